@@ -3,7 +3,7 @@
    last delete_threshold+1 playlist versions are still there. *)
 From Coq Require Import ZArith Bool List Lia.
 From Lal Require Import Common.LBytes Hls.HlsFloat Hls.HlsFs Hls.HlsPlaylist Hls.HlsMuxer Hls.HlsConsistent
-  Hls.HlsFsProofs Hls.HlsFloatProofs Hls.HlsInv Hls.HlsInvProofs Hls.HlsRunProofs.
+  Hls.HlsParse Hls.HlsFsProofs Hls.HlsFloatProofs Hls.HlsTextProofs Hls.HlsParseProofs Hls.HlsInv Hls.HlsInvProofs Hls.HlsRunProofs.
 Open Scope Z_scope.
 
 (* ---------- target duration ---------- *)
@@ -56,6 +56,19 @@ Proof.
   unfold frag_target. apply frag_target_ok. lia.
 Qed.
 
+Lemma calc_target_nonneg x : 0 <= f_num x -> 0 <= calc_target x.
+Proof.
+  intros Hx. unfold calc_target. apply Z.div_pos; [|lia].
+  assert (0 <= f_round (f_mul x (f_of_Z 1000))); [|lia].
+  unfold f_round. pose proof (f_den_pos (f_mul x (f_of_Z 1000))).
+  apply Z.div_pos; [|lia].
+  assert (0 <= f_num (f_mul x (f_of_Z 1000))); [|lia].
+  unfold f_mul. apply rnd53_nonneg.
+  - apply Z.mul_nonneg_nonneg; [exact Hx|]. unfold f_of_Z. apply rnd53_nonneg; lia.
+  - apply Z.mul_pos_pos; apply f_den_pos.
+Qed.
+
+
 (* ---------- the invariant gives the instantaneous clauses ---------- *)
 Lemma in_frags_in_playlist c m f :
   In f (frags_in_playlist c m) -> exists k, 0 <= k < m_nfrags m /\ f = get_frag c m k.
@@ -76,6 +89,31 @@ Proof.
   exists f, pp, rest. auto.
 Qed.
 
+Lemma max_dur_nonneg l init :
+  0 <= f_num init -> (forall g, In g l -> 0 <= f_num (fi_dur g)) -> 0 <= f_num (max_dur l init).
+Proof.
+  intros Hi Hl. destruct (max_dur_spec l init) as (_ & _ & [-> | (g & Hg & ->)]); auto.
+Qed.
+
+Lemma inv_live_wf c m s e : Inv c m s -> pl_wf (live_playlist c m e).
+Proof.
+  intros [H1 H2 H3 H4 H5 H6 H7 H8 H9 H10 H11 H12 H13]. unfold pl_wf, live_playlist. cbn [pl_target pl_seq pl_segs].
+  assert (Hd : forall g, In g (frags_in_playlist c m) -> dur_ok (fi_dur g)).
+  { intros g Hg. apply in_frags_in_playlist in Hg. destruct Hg as (k & _ & ->). apply H13. }
+  split; [|split; [lia|]].
+  - unfold live_target. apply calc_target_nonneg. apply max_dur_nonneg.
+    + unfold frag_target. apply (frag_target_ok (c_ms c)). lia.
+    + intros g Hg. apply Hd. exact Hg.
+  - apply Forall_forall. intros sg Hsg. apply in_map_iff in Hsg. destruct Hsg as (g & <- & Hg). cbn. now apply Hd.
+Qed.
+
+Lemma inv_parse c m s e : Inv c m s ->
+  parse_live (print_live (c_stream c) (live_playlist c m e)) = Some (abs_pl (c_stream c) (live_playlist c m e)).
+Proof.
+  intros HI. apply parse_print_live; [|now apply (inv_live_wf c m s)].
+  destruct HI as [H1 _ _ _ _ _ _ _ _ _ _ _ _]. apply H1.
+Qed.
+
 Lemma inv_live_ok c m s : Inv c m s -> live_ok c s.
 Proof.
   intros HI f Hf.
@@ -84,7 +122,7 @@ Proof.
     assert (nclosed m = 0) by (unfold nclosed in *; lia). rewrite H11 in Hf by assumption. discriminate.
   - pose proof HI as [H1 H2 H3 H4 H5 H6 H7 H8 H9 H10 H11 H12 H13].
     destruct (H12 ltac:(lia)) as [e He]. rewrite He in Hf. injection Hf as <-.
-    exists (live_playlist c m e). split; [reflexivity|]. cbn [pl_segs pl_target live_playlist].
+    exists (live_playlist c m e). split; [reflexivity|]. split; [now apply (inv_parse c m s)|]. cbn [pl_segs pl_target live_playlist].
     split; apply Forall_forall; intros sg Hsg; apply in_map_iff in Hsg; destruct Hsg as (g & <- & Hg).
     + apply live_target_ge; [lia| |exact Hg].
       intros g' Hg'. apply in_frags_in_playlist in Hg'. destruct Hg' as (k & _ & ->). apply H13.
@@ -119,6 +157,20 @@ Proof.
   rewrite E at 1. rewrite filter_app, app_length. lia.
 Qed.
 
+Theorem media_sequence_parsed c evs j k fj fk tj tk :
+  cfg_ok c -> wf_evs c Clean evs -> (j <= k)%nat ->
+  no_removeall (skipn j (firstn k (run c evs))) ->
+  fs_lookup PLive (state_at c evs j) = Some fj -> fs_lookup PLive (state_at c evs k) = Some fk ->
+  parse_live (fdata fj) = Some tj -> parse_live (fdata fk) = Some tk -> t_seq tj <= t_seq tk.
+Proof.
+  intros Hc Hwf Hjk HN Hfj Hfk Pj Pk. destruct (run_is_chain c evs Hc Hwf) as (m' & Hch).
+  destruct (chain_two_points c _ _ _ _ j k Hch (inv_new c Hc) Hjk HN) as (mj & mk & HIj & HIk & (_ & Hle & _) & _).
+  destruct (inv_live_content c mj _ fj HIj Hfj) as (_ & ej & Ej).
+  destruct (inv_live_content c mk _ fk HIk Hfk) as (_ & ek & Ek).
+  rewrite Ej, (inv_parse c mj _ ej HIj) in Pj. rewrite Ek, (inv_parse c mk _ ek HIk) in Pk.
+  injection Pj as <-. injection Pk as <-. cbn. exact Hle.
+Qed.
+
 Theorem media_sequence_monotone c evs j k fj fk :
   cfg_ok c -> wf_evs c Clean evs -> (j <= k)%nat ->
   no_removeall (skipn j (firstn k (run c evs))) ->
@@ -137,13 +189,14 @@ Theorem listed_segments_stay c evs j k fj :
   no_removeall (skipn j (firstn k (run c evs))) ->
   ver_at c evs k - ver_at c evs j <= c_thr c ->
   fs_lookup PLive (state_at c evs j) = Some fj ->
-  exists pj, fdata fj = print_live (c_stream c) pj /\ Forall (seg_file_ok (state_at c evs k)) (pl_segs pj).
+  exists pj, fdata fj = print_live (c_stream c) pj /\ parse_live (fdata fj) = Some (abs_pl (c_stream c) pj) /\
+             Forall (seg_file_ok (state_at c evs k)) (pl_segs pj).
 Proof.
   intros Hc Hwf Hjk HN Hver Hfj. destruct (run_is_chain c evs Hc Hwf) as (m' & Hch).
   destruct (chain_two_points c _ _ _ _ j k Hch (inv_new c Hc) Hjk HN) as (mj & mk & HIj & HIk & (Hn & _ & l & Hh) & Hcnt).
   rewrite <- ver_at_diff in Hcnt by exact Hjk.
   destruct (inv_live_content c mj _ fj HIj Hfj) as (Hpos & ej & Ej).
-  exists (live_playlist c mj ej). split; [exact Ej|]. cbn [pl_segs live_playlist].
+  exists (live_playlist c mj ej). split; [exact Ej|]. split; [rewrite Ej; now apply (inv_parse c mj _ ej HIj)|]. cbn [pl_segs live_playlist].
   apply Forall_forall. intros sg Hsg. apply in_map_iff in Hsg. destruct Hsg as (g & <- & Hg).
   apply in_frags_in_playlist in Hg. destruct Hg as (t & Ht & ->).
   pose proof HIj as [J1 J2 J3 J4 J5 J6 J7 J8 J9 J10 J11 J12 J13].
